@@ -18,6 +18,7 @@ import (
 	"fmt"
 	"net/url"
 	"regexp"
+	"strings"
 
 	"github.com/oxia-db/oxia/common/compare"
 	"github.com/oxia-db/oxia/common/constant"
@@ -349,8 +350,19 @@ func doSecondaryGet(db kv.DB, req *proto.GetRequest) (primaryKey string, seconda
 		it.SeekGE(searchKey)
 	}
 
+	indexPrefix := fmt.Sprintf(secondaryIdxRangePrefixFormat, indexName, "")
 	for it.Valid() {
 		itKey := it.Key()
+		if !strings.HasPrefix(itKey, indexPrefix) {
+			// The iterator has moved outside the keys of the requested index
+			if (req.ComparisonType == proto.KeyComparisonType_FLOOR || req.ComparisonType == proto.KeyComparisonType_LOWER) &&
+				compare.CompareWithSlash([]byte(itKey), []byte(searchKey)) > 0 {
+				// We're past the end of the index, step back into it
+				it.Prev()
+				continue
+			}
+			return "", "", nil
+		}
 		primaryKey, secondaryKey, err = secondaryIndexPrimaryAndSecondaryKey(itKey)
 		if err != nil && !errors.Is(err, errFailedToParseSecondaryKey) {
 			return "", "", err
@@ -391,5 +403,6 @@ func doSecondaryGet(db kv.DB, req *proto.GetRequest) (primaryKey string, seconda
 		}
 	}
 
-	return primaryKey, secondaryKey, err
+	// The iterator ran off the end of the database without finding a match
+	return "", "", nil
 }
